@@ -2,12 +2,15 @@ import N0Verif.Proofs.CompareCount
 import N0Verif.Proofs.CompareFaithful
 import N0Verif.Proofs.CompareSwap
 import N0Verif.Proofs.CompareSwapKeyed
+import N0Verif.Proofs.CompareFrame
 /-!
 # C09 — compare reports are faithful to the operands and leave them untouched
 
 Model: `N0Verif/Model/Compare.lean` (the code with fix patches C07-a, C08-a, C09-a applied).
 Operand purity is immediate in a pure model (values are immutable); it is carried by the
-correspondence harness (deep copies before/after), not claimed as a theorem.
+correspondence harness (deep copies before/after), not claimed as a theorem.  What is NOT immediate is the
+frame statement at the end of this file: which part of the operands the result depends on — the class tags
+(`n0dict`/`n0list` against plain `dict`/`list`) of the nodes below the roots (`C09_frame*`).
 -/
 namespace N0.C09
 open N0 N0.Compare
@@ -194,6 +197,87 @@ theorem C09_swap_keyed_exclude_cex :
                     .dict .n0 [(['i', 'd'], .str ['a']), (['v'], .int 2)]])
         (.list .n0 [.dict .n0 [(['i', 'd'], .str ['a']), (['v'], .int 1)]])).map (·.diffs) = .ok 2 :=
   swap_keyed_exclude_cex
+
+/-! ### frame: the class tags below the roots -/
+
+/-- the unrestricted statement "the result does not depend on the class tags below the roots (the code wraps
+sub-nodes with `n0list(...)`/`n0dict(...)` before recursing)", with `toN0` = `convert_recursively` and
+`Res.mapV toN0` = the same result with the shown values converted — **false**: `C09_tags_irrelevant_refuted` -/
+def C09_tags_irrelevant_stmt : Prop := frame_stmt
+
+theorem C09_tags_irrelevant_refuted : ¬ C09_tags_irrelevant_stmt := frame_stmt_false
+
+/-- the tags matter in exactly three places: (1) `type(a) == type(b)` — an `n0dict` against a plain `dict`
+under the same key is a type clash … -/
+theorem C09_frame_clash_cex :
+    (compareTop (Cfg.default Flags.init false) (.dict .n0 [(['a'], .dict .n0 [])]) (.dict .n0 [(['a'], .dict .plain [])])).map
+        (·.diffs) = .ok 1 ∧
+    (compareTop (Cfg.default Flags.init false) (toN0 (.dict .n0 [(['a'], .dict .n0 [])]))
+        (toN0 (.dict .n0 [(['a'], .dict .plain [])]))).map (·.diffs) = .ok 0 :=
+  frame_clash_cex
+
+/-- … (2) `direct_compare` on a plain list nested in a list: `AttributeError` … -/
+theorem C09_frame_attr_cex :
+    compareTop (Cfg.default Flags.init true) (.list .n0 [.list .plain [.int 1]]) (.list .n0 [.list .plain [.int 1]])
+      = .error .AttributeError ∧
+    (compareTop (Cfg.default Flags.init true) (toN0 (.list .n0 [.list .plain [.int 1]]))
+        (toN0 (.list .n0 [.list .plain [.int 1]]))).map (·.diffs) = .ok 0 :=
+  frame_attr_cex
+
+/-- … (3) `compare` on a plain `dict` that is a list item: `TypeError`. -/
+theorem C09_frame_type_cex :
+    compareTop (Cfg.default Flags.init false) (.list .n0 [.dict .plain [(['k'], .int 1)]])
+        (.list .n0 [.dict .plain [(['k'], .int 1)]]) = .error .TypeError ∧
+    (compareTop (Cfg.default Flags.init false) (toN0 (.list .n0 [.dict .plain [(['k'], .int 1)]]))
+        (toN0 (.list .n0 [.dict .plain [(['k'], .int 1)]]))).map (·.diffs) = .ok 0 :=
+  frame_type_cex
+
+/-- **C09 (frame).**  No transform, every other option and flag record, both entry points; roots of the same
+kind; below the roots every dictionary carries one tag `cd` and every list one tag `cl` (`tagsKids`).  Then the
+run on `(a, b)` and the run on the recursively converted trees `(toN0 a, toN0 b)` are related by `FrameRel`:
+the first returns `r` ⇒ the second returns `r` with the shown values converted; the first raises `e` ⇒ the
+second raises `e` too, **or** `e` is one of the two `isinstance` exceptions (`AttributeError`/`TypeError`) and
+the walked mode meets a plain container of the kind it checks (`TagErr`: `direct_compare` with plain lists,
+`compare` with plain dictionaries). -/
+theorem C09_frame (cfg : Cfg) (htr : cfg.tr = []) (cd cl : Cls) (a b : Val) (hr : RootPair a b)
+    (ha : tagsKids cd cl a = true) (hb : tagsKids cd cl b = true) :
+    FrameRel (TagErr cfg cd cl) (compareTop cfg a b) (compareTop cfg (toN0 a) (toN0 b)) :=
+  frame_compareTop cfg htr cd cl a b hr ha hb
+
+/-- when `TagErr` is excluded the run IS the run on the converted trees (exception class included) … -/
+theorem C09_frame_exact (cfg : Cfg) (htr : cfg.tr = []) (cd cl : Cls) (hT : ¬ TagErr cfg cd cl) (a b : Val)
+    (hr : RootPair a b) (ha : tagsKids cd cl a = true) (hb : tagsKids cd cl b = true) :
+    compareTop cfg (toN0 a) (toN0 b) = (compareTop cfg a b).map (Res.mapV toN0) :=
+  frame_exact cfg htr cd cl hT a b hr ha hb
+
+/-- … in particular for `compare()` on trees as `n0dict(json_text)` builds them — `n0dict`s everywhere, plain
+lists: the theorems stated for recursively converted trees (`isN0`, C07) describe these runs too … -/
+theorem C09_frame_loaded (cfg : Cfg) (htr : cfg.tr = []) (hd : cfg.direct = false) (a b : Val)
+    (hr : RootPair a b) (ha : tagsKids .n0 .plain a = true) (hb : tagsKids .n0 .plain b = true) :
+    compareTop cfg (toN0 a) (toN0 b) = (compareTop cfg a b).map (Res.mapV toN0) :=
+  frame_keyed_loaded cfg htr hd a b hr ha hb
+
+/-- … and for `direct_compare` on trees with `n0list`s and plain dictionaries. -/
+theorem C09_frame_direct (cfg : Cfg) (htr : cfg.tr = []) (hd : cfg.direct = true) (a b : Val)
+    (hr : RootPair a b) (ha : tagsKids .plain .n0 a = true) (hb : tagsKids .plain .n0 b = true) :
+    compareTop cfg (toN0 a) (toN0 b) = (compareTop cfg a b).map (Res.mapV toN0) :=
+  frame_direct_plainDicts cfg htr hd a b hr ha hb
+
+theorem C09_frame_verdict (cfg : Cfg) (htr : cfg.tr = []) (cd cl : Cls) (hT : ¬ TagErr cfg cd cl) (a b : Val)
+    (hr : RootPair a b) (ha : tagsKids cd cl a = true) (hb : tagsKids cd cl b = true) :
+    verdict (compareTop cfg (toN0 a) (toN0 b)) = verdict (compareTop cfg a b) :=
+  frame_verdict cfg htr cd cl hT a b hr ha hb
+
+/-- non-vacuity: `{'r': [1, {'k': [2]}]}` against `{'r': [{'k': [3]}, 1]}` with plain lists and `n0dict`s -/
+example : tagsKids .n0 .plain frLoadedA = true ∧ tagsKids .n0 .plain frLoadedB = true ∧
+    (compareTop (Cfg.default Flags.init false) frLoadedA frLoadedB).map (fun r => (r.diffs, r.selfUnique.map (·.path)))
+      = .ok (2, [[.key ['r'], .idx2 1 0, .key ['k'], .idx 0]]) ∧
+    (compareTop (Cfg.default Flags.init false) (toN0 frLoadedA) (toN0 frLoadedB)).map
+        (fun r => (r.diffs, r.selfUnique.map (·.path)))
+      = .ok (2, [[.key ['r'], .idx2 1 0, .key ['k'], .idx 0]]) := frLoaded_example
+example : RootPair frLoadedA frLoadedB := by simp [RootPair, frLoadedA, frLoadedB]
+example : ¬ TagErr (Cfg.default Flags.init false) .n0 .plain := by simp [TagErr, Cfg.default]
+example : TagErr (Cfg.default Flags.init true) .n0 .plain := by simp [TagErr, Cfg.default]
 
 /-! Non-vacuity: a pair whose report has a `[i]<>[j]` entry, a unique entry and a type clash. -/
 def exL : Val := .dict .n0 [(['r'], .list .n0 [.dict .n0 [(['i'], .str ['1']), (['v'], .int 1)], .dict .n0 [(['i'], .str ['2']), (['v'], .int 2)], .int 7])]
